@@ -6,6 +6,7 @@ package sarama
 import (
 	"encoding/json"
 	"fmt"
+	"os"
 	"runtime"
 	"sort"
 	"sync"
@@ -139,13 +140,13 @@ type mdStats struct {
 	byFam, byVer, byMode                        map[string]int
 	missReads, failedRefreshes, servedRefreshes int
 	samples                                     []interface{}
+	strangers                                   int
 }
 
 // runCase replays one behaviour and returns its events.
 func mdRunCase(c *mdCluster, idx int, mc *mdCase, ver string, st *mdStats) (events []kv) {
 	var seq int64
-	c.seq = &seq
-	c.take()
+	clientID := c.beginCase(&seq)
 	events = append(events, kv{"ev": "reset", "fam": mc.Fam, "ver": ver, "idx": idx})
 	var cl Client
 	defer func() {
@@ -157,12 +158,18 @@ func mdRunCase(c *mdCluster, idx int, mc *mdCase, ver string, st *mdStats) (even
 		}
 		allUp := map[string]int{}
 		c.setModes(allUp)
+		if n := c.endCase(); n > 0 {
+			st.mu.Lock()
+			st.strangers += n
+			st.mu.Unlock()
+		}
 	}()
 	retryMax := 1
 	if mc.Retry != nil {
 		retryMax = *mc.Retry
 	}
 	conf := mdConfig(c, ver, retryMax)
+	conf.ClientID = clientID
 	for k := range mc.Steps {
 		step := &mc.Steps[k]
 		live, known := []string{}, []string{}
@@ -415,6 +422,29 @@ func TestVerifMetadata(t *testing.T) {
 	if workers < 1 {
 		workers = 1
 	}
+	// self-test of the harness (runs beside the cases, on a cluster of its own): a client carrying
+	// another client id gets no answer and nothing is logged as served
+	strangerErr := make(chan string, 1)
+	go func() {
+		c := mdNewCluster()
+		defer c.close()
+		var seq int64
+		c.beginCase(&seq)
+		c.setWorld(&cases[0].Steps[0].World)
+		conf := mdConfig(c, "v5", 0)
+		conf.ClientID = fmt.Sprintf("somebody-else-%d", os.Getpid())
+		conf.Net.ReadTimeout = 300 * time.Millisecond
+		cl, err := NewClient([]string{c.addr["s1"], c.addr["s2"]}, conf)
+		if cl != nil {
+			_ = cl.Close()
+		}
+		served := len(c.take())
+		if err == nil || served != 0 || c.endCase() == 0 {
+			strangerErr <- fmt.Sprintf("a client with a foreign client id was served (err=%v, served=%d)", err, served)
+			return
+		}
+		strangerErr <- ""
+	}()
 	var next int64 = -1
 	var wg sync.WaitGroup
 	for w := 0; w < workers; w++ {
@@ -486,13 +516,16 @@ func TestVerifMetadata(t *testing.T) {
 		}()
 	}
 	wg.Wait()
+	if msg := <-strangerErr; msg != "" {
+		t.Fatalf("harness self-test: %s", msg)
+	}
 	rec.Close()
 	vWriteJSON(t, "summary.json", kv{
 		"cases": st.cases, "steps": st.steps, "reads": st.reads, "conc_reads": st.concReads, "conc_reads_kept": st.concKept,
 		"responses_served": st.serves, "hangs": st.hangs, "panics_or_hangs": st.panics, "clients_created": st.created,
 		"creation_failed": st.notCreated, "by_family": st.byFam, "by_version": st.byVer, "down_by_mode": st.byMode,
 		"reads_that_refreshed_on_miss": st.missReads, "refreshes_served": st.servedRefreshes,
-		"refreshes_nobody_answered": st.failedRefreshes, "events": rec.events, "samples": st.samples,
+		"refreshes_nobody_answered": st.failedRefreshes, "events": rec.events, "requests_of_strangers_turned_away": st.strangers, "samples": st.samples,
 	})
 }
 
